@@ -184,6 +184,28 @@ def L4_strings(ctx, rid, core, G):
     has_escape = any(x["k"] == "str" and "\\" in x["v"] for x in G.walk(sv))
     ctx.inst(rid, "grammar#string-has-no-escapes", not has_escape, "string_value = (!PEEK ~ ANY)*: no escape alternative: %s" % (not has_escape), "blots-core/src/grammar.pest")
     string_atomic(ctx, rid, G)
+    # the content of a string literal ends at its closing quote and nowhere else: the printers put any text between double quotes, so a
+    # content rule that also stops at a line break (or anything but the quote) rejects what they emit for a multi-line string
+    try:
+        stops = []
+        seen_ = set()
+
+        def content_negs(e, depth=0):
+            for x in G.walk(e):
+                if x["k"] == "neg":
+                    stops.append(x["e"])
+                if x["k"] == "ident" and x["v"] in G.rules and x["v"] not in seen_ and depth < 4 and x["v"] not in ("plain_newline", "NEWLINE", "WHITESPACE"):
+                    seen_.add(x["v"])
+                    content_negs(G.expr(x["v"]), depth + 1)
+        content_negs(G.expr("string"))
+        extra = []
+        for st_ in stops:
+            for y in G.walk(st_):
+                if y["k"] == "ident" and y["v"] not in ("PEEK", "POP", "PUSH") or (y["k"] == "str" and y["v"] not in ("\"", "'")):
+                    extra.append(y.get("v"))
+        ctx.inst(rid, "grammar#string-content-ends-at-the-quote-only", not extra, "besides the closing quote a string's content also stops at: %s" % (sorted(set(map(str, extra))) or "nothing"), "blots-core/src/grammar.pest")
+    except CheckerError as ex_:
+        ctx.inst(rid, "grammar#string-content-ends-at-the-quote-only", None, "not read: %s" % ex_, "blots-core/src/grammar.pest")
     L4_debug_strings(ctx, rid, core)
     pf = printer_fns(core)
     helper_counts = {}
